@@ -1,6 +1,10 @@
 package connlist
 
 import (
+	corev1 "k8s.io/api/core/v1"
+	netv1 "k8s.io/api/networking/v1"
+	metav1 "k8s.io/apimachinery/pkg/apis/meta/v1"
+
 	"github.com/np-guard/netpol-analyzer/pkg/netpol/connlist/internal/ingressanalyzer"
 	"github.com/np-guard/netpol-analyzer/pkg/netpol/eval"
 	"github.com/np-guard/netpol-analyzer/pkg/netpol/internal/common"
@@ -11,13 +15,24 @@ import (
 func ZZ_C05_RelationShape() {
 	g := zzBaseWorld(true, vf_Choose("nsObjs", 2) == 1)
 	g.ConcreteIP = true
-	variant := vf_Choose("variant", 3)
+	variant := vf_Choose("variant", 4)
 	switch variant {
 	case 0: // one NetworkPolicy from the (reduced) menus
 		g.addNP(g.zzGenNPx("np1", "ns1", vf_Tier() > 0, vf_Tier() == 0))
 	case 1: // two policies from reduced menus
 		g.addNP(g.zzGenNPx("np1", "ns1", false, true))
 		g.addNP(g.zzGenNPTiny("np2", "ns1"))
+	case 3: // two policies on pod a, each allowing UDP, SCTP and a symbolic TCP range from everybody: their union may complete
+		// the whole space by widening a protocol both already hold (then it must be reported as All Connections)
+		for _, name := range []string{"npx", "npy"} {
+			p, e := zzPortVar(name+".p"), zzPortVar(name+".e")
+			vf_Assume(p <= e)
+			g.addNP(zzNetpolObj("ns1", name, netv1.NetworkPolicySpec{
+				PodSelector: metav1.LabelSelector{MatchLabels: map[string]string{"app": "a"}},
+				Ingress: []netv1.NetworkPolicyIngressRule{{Ports: []netv1.NetworkPolicyPort{zzPortRange(corev1.ProtocolTCP, p, e),
+					{Protocol: zzProtoPtr(corev1.ProtocolUDP)}, {Protocol: zzProtoPtr(corev1.ProtocolSCTP)}}}},
+			}).NetworkPolicy)
+		}
 	default: // admin policies
 		ing := vf_Choose("dir", 2) == 0
 		p1 := vf_Int32N("prio.a", 10)
